@@ -1,9 +1,12 @@
 import Woodpile.Driver.Util
 import Woodpile.Driver.ReadN
+import Woodpile.Driver.Hcobs
 
 open Woodpile.Driver
 
 def families : List (String × Family) := [
+  ("hcobs_enc", HcobsFam.encFamily),
+  ("hcobs_dec", HcobsFam.decFamily),
   ("readn", ReadNFam.family)
 ]
 
